@@ -10,6 +10,8 @@ import (
 	"fmt"
 	"io"
 	"net"
+	"net/http"
+	"net/http/httptest"
 	"os"
 	"sync"
 	"sync/atomic"
@@ -369,8 +371,10 @@ func TestVerifIngestRaceChurn(t *testing.T) { vraceRun(t, false, true) }
 // ---- connection vs sweep under real concurrency (no gates): a linearizability oracle at quiescence.
 // Every registration is valid, unused and 11 minutes old when one sweep and several connection handlers start together.
 // Whatever the interleaving INSIDE the locked methods, each registration must end in one of the two serial outcomes:
-//   handler first : marked used (Update announced)  => younger than 6 h and used => the sweep must keep it
-//   sweep first   : removed                          => the handler finds nothing, no Update is announced
+//
+//	handler first : marked used (Update announced)  => younger than 6 h and used => the sweep must keep it
+//	sweep first   : removed                          => the handler finds nothing, no Update is announced
+//
 // "Update announced and removed" (a used registration younger than 6 h dropped) or "kept although never used" are violations.
 func TestVerifSweepMarkStress(t *testing.T) {
 	out := vOpenOut(t)
@@ -521,4 +525,60 @@ func TestVerifDuplicateBurst(t *testing.T) {
 		w.close()
 	}
 	out.Emit(map[string]any{"kind": "summary", "rounds": rounds, "workers": K, "bad": bad})
+}
+
+// ---- a peer station that accepts the share request and never answers (Ingest.tla: PeerAnswers carries no fairness).
+// Registrations learned from the detector are passed on to the peer stations by a request of its own goroutine: whatever the peer
+// does, the registration must become usable at once, further registrations must keep being processed, and a stop request must wind
+// the pipeline down in bounded time.
+func TestVerifStalledPeer(t *testing.T) {
+	out := vOpenOut(t)
+	defer out.Close()
+	release := make(chan struct{})
+	var reached int64
+	peer := httptest.NewServer(http.HandlerFunc(func(rw http.ResponseWriter, r *http.Request) {
+		_, _ = io.Copy(io.Discard, r.Body)
+		atomic.AddInt64(&reached, 1)
+		<-release // never answers while the test runs
+	}))
+	defer func() { close(release); peer.CloseClientConnections(); peer.Close() }()
+	w := vpipNew(t, 10)
+	w.block.Store(false)
+	w.rm.EnableShareOverAPI = true
+	w.rm.PreshareEndpoint = peer.URL
+	ctx, cancel := context.WithCancel(context.Background())
+	regChan := make(chan interface{}, 100)
+	wg := new(sync.WaitGroup)
+	wg.Add(1)
+	returned := make(chan struct{})
+	go func() { w.rm.HandleRegUpdates(ctx, regChan, wg) }()
+	go func() { wg.Wait(); close(returned) }()
+	time.Sleep(20 * time.Millisecond) // workers up (a message offered before that may be dropped as overload)
+	const n = 14                      // more detector registrations than there are workers
+	for i := 0; i < n; i++ {
+		regChan <- vpipMsg(700000+i, pb.RegistrationSource_Detector)
+		time.Sleep(2 * time.Millisecond)
+	}
+	deadline := time.Now().Add(3 * time.Second)
+	for atomic.LoadInt64(&w.finished) < n && time.Now().Before(deadline) {
+		time.Sleep(time.Millisecond)
+	}
+	fin := atomic.LoadInt64(&w.finished)
+	_, dropped, _ := w.counters()
+	if fin+dropped < n {
+		out.Emit(map[string]any{"kind": "prop", "prop": "StalledPeerDoesNotHoldRegistrations", "detail": fmt.Sprintf(
+			"%d detector registrations offered while the peer station does not answer its share requests: %d announced, %d dropped as overload, "+
+				"%d neither after 3 s (share requests that reached the peer: %d)", n, fin, dropped, int64(n)-fin-dropped, atomic.LoadInt64(&reached))})
+	}
+	cancel()
+	t0 := time.Now()
+	select {
+	case <-returned:
+		out.Emit(map[string]any{"kind": "stalledpeer", "announced": fin, "dropped": dropped, "shares_reached_peer": atomic.LoadInt64(&reached), "returned_ms": time.Since(t0).Milliseconds()})
+	case <-time.After(5 * time.Second):
+		out.Emit(map[string]any{"kind": "prop", "prop": "ShutdownBounded", "variant": "stalled-peer",
+			"detail": "HandleRegUpdates had not returned 5 s after the stop request while a peer station left share requests unanswered"})
+	}
+	verifhook.SetYield(nil)
+	out.Emit(map[string]any{"kind": "summary"})
 }
